@@ -114,13 +114,20 @@ def run(model, col, tier):
     if not shape_ok and len(oi) == 2 and oi[0][0] == "byte" and oi[1][0] == "each":
         # unguarded loop over the immediates (an empty list writes nothing): equivalent
         shape_ok = oi[0][1].endswith("opcode") and oi[1][1].endswith("args") and len(oi[1][3]) == 1 and oi[1][3][0][0] == "leb" and oi[1][3][0][1] == oi[1][2]
-    col.check(shape_ok and len(ti.buffers) == 1, "R19.2", f"{WA}::Instruction.WriteTo", "byte(opcode) then uleb/sleb(arg) for each immediate, to the output stream",
+    streams_ok = len(ti.buffers) == 1
+    if not streams_ok and set(ti.buffers) == {insw.args.args[1].arg, "$guard"}:
+        # `if not self.__args: return` after the opcode byte was written is the guarded loop spelled as an early exit
+        body_ = [s for s in insw.body if not (isinstance(s, ast.Expr) and isinstance(s.value, ast.Constant))]
+        i_op = next((i for i, s in enumerate(body_) if any(isinstance(c, ast.Call) and any("opcode" in unparse(a) for a in c.args) for c in ast.walk(s))), None)
+        guards = [(i, s) for i, s in enumerate(body_) if isinstance(s, ast.If) and len(s.body) == 1 and isinstance(s.body[0], ast.Return) and not s.orelse]
+        streams_ok = i_op is not None and bool(guards) and all(i > i_op and isinstance(s.test, ast.UnaryOp) and isinstance(s.test.op, ast.Not) and unparse(s.test.operand).endswith("args") for i, s in guards)
+    col.check(shape_ok and streams_ok, "R19.2", f"{WA}::Instruction.WriteTo", "byte(opcode) then uleb/sleb(arg) for each immediate, to the output stream",
               f"an instruction is written as {oi} (streams {sorted(ti.buffers)}); expected its opcode byte followed by each immediate", WA, insw)
     # ---------------- R19.3 ------------------------------------------------------
     ws = model.func(WA, "WriteString")
     t = Terms(model, ws)
     o = t.out(ws.args.args[0].arg)
-    ok = len(o) == 2 and o[0][0] == "leb" and o[1][0] == "bytes" and o[0][1] == f"len({o[1][1]})" and not o[0][2]
+    ok = len(o) == 2 and o[0][0] == "leb" and o[1][0] == "bytes" and (o[0][1] == f"len({o[1][1]})" or t.resolve(o[0][1]) == f"len({o[1][1]})") and not o[0][2]
     src = t.resolve(o[1][1]) if ok else ""
     col.check(ok and src == f"PackString({ws.args.args[1].arg})", "R19.3", f"{WA}::WriteString", "uleb(len(b)) bytes(b) with b = PackString(s)",
               f"a name is written as {[(i[0], i[1]) for i in o]} with b = `{src}`: the length prefix must count the encoded bytes that follow", WA, ws)
@@ -246,6 +253,39 @@ def check_encoder_shape(model, col, R):
                         if stop is not want:
                             good = False
                             wrong.append((rest, hex(byte), stop))
+            if not good and isinstance(lp.test, ast.Constant):
+                # the decision may be spread over several statements (a flag set by if/elif, then tested): walk the paths of
+                # the loop body for each (rest, byte), keeping the locals the path binds, and see whether the feasible path
+                # leaves the loop
+                good, wrong = True, []
+                all_paths = list(paths(lp.body))
+                for rest in (0, -1, 1, -2, 37, -100):
+                    for byte in (0x00, 0x01, 0x3F, 0x40, 0x41, 0x7F):
+                        outcome = set()
+                        for evs, status in all_paths:
+                            env = {vname: rest, bname: byte}
+                            feasible = True
+                            for e in evs:
+                                if e.kind == "stmt" and isinstance(e.node, ast.Assign) and isinstance(e.node.targets[0], ast.Name) and e.node.targets[0].id not in (vname, bname):
+                                    try:
+                                        env[e.node.targets[0].id] = ev(e.node.value, env)
+                                    except CannotEval:
+                                        env.pop(e.node.targets[0].id, None)
+                                elif e.kind == "cond":
+                                    try:
+                                        if bool(ev(e.node, env)) != bool(e.val):
+                                            feasible = False
+                                            break
+                                    except CannotEval:
+                                        feasible = False
+                                        outcome.add(None)
+                                        break
+                            if feasible:
+                                outcome.add(status in ("return", "break"))
+                        want = (rest == 0 and not byte & 0x40) or (rest == -1 and bool(byte & 0x40))
+                        if outcome != {want}:
+                            good = False
+                            wrong.append((rest, hex(byte), sorted(outcome, key=str)))
             tests = [unparse(n.test) for n in ifs]
             col.check(good, R, f"{WA}::PackInteger signed termination", "stops exactly when the rest is the sign extension of bit 6 (v == 0 and bit clear, or v == -1 and bit set)",
                       f"termination test {tests} (loop `while {unparse(lp.test)}`) decides (remaining value, byte) = {wrong[:3]} wrongly: the last byte's bit 6 must equal the sign of what remains, "
